@@ -63,10 +63,30 @@ def enum_cells(tier):
             yield dict(lib=lib, cell=name)
 
 
+def other_work():
+    """something else the process did before looking at the library: it simulated an edited netlist in which the last input line of some
+    3- and 4-input gates had been removed again. (What those gates compute is not judged here; the library cells afterwards are.)"""
+    from kyupy import bench
+    from kyupy.logic_sim import LogicSim
+    kinds = ['NAND', 'NOR', 'AND', 'OR', 'XOR', 'XNOR']
+    gates = [(f'{kd}{suffix if suffix != "n" else n}', n) for kd in kinds for n in (3, 4) for suffix in ('', 'n')]     # NAND and NAND3 / NAND4 spellings
+    txt = 'input(a,b,c,d) output(' + ','.join(f'y{k}' for k in range(len(gates))) + ')\n'
+    for k, (kd, n) in enumerate(gates):
+        txt += f'y{k}={kd}({",".join("abcd"[:n])})\n'
+    c = bench.parse(txt)
+    for n in list(c.cells.values()):
+        if n.name.startswith('y') and n.kind not in ('input', 'output') and len(n.ins) >= 3:
+            n.ins[len(n.ins) - 1].remove()
+    sim = LogicSim(c, 4, m=2)
+    sim.s_to_c(); sim.c_prop(); sim.c_to_s()
+
+
 def prop(case):
     import kyupy.techlib as tl
     from kyupy.logic_sim import LogicSim
     lib, name = case['lib'], case['cell']
+    if sum(map(ord, name)) % 8 == 0:
+        other_work()
     tlib = getattr(tl, lib)
     exp = expected_cells(lib)
     if name not in tlib.cells:
